@@ -60,7 +60,7 @@ PROPS = {
     assumptions=[A['A6'], A['A7'], A['A9']],
     explanation='length dispatch of from_slice / from_hash / to_big_endian and the byte<->limb conversions by Kani over all lengths and bytes; the reductions behind them (U512::divrem remainder, Fq/Fr::new, new_mul_factor, From<Fq> for U256, set_bit) by Verus on the extracted text; wrappers as delegation obligations; from_str by search only'),
  'C05': dict(
-    tasks=T('handover:tower', 'mirvc:specs_loops', 'mirvc:specs_lib', 'mirvc:specs_groups', 'verus:divrem', 'verus:invr', 'gsearch:all', 'lsearch:all', 'ground:all'),
+    tasks=T('handover:tower', 'handover:groups', 'mirvc:specs_loops', 'mirvc:specs_lib', 'mirvc:specs_groups', 'verus:divrem', 'verus:invr', 'gsearch:all', 'lsearch:all', 'ground:all'),
     trusted_base=[A['A3'], A['A4'], A['A7'], A['A9'], 'hand-over (by statement, not machine-linked): U256::from(Fr) = canonical value and BitIterator::next = bit n-1 of it, both E1 obligations; SkipWhile over it yields the binary digits from the leading 1 (core iterator semantics, A9)'],
     assumptions=[A['A3'], A['A4'], A['A6'], A['A7']],
     explanation='double-and-add loop of Mul<Fr> for G<P> verified with the inductive invariant pt(res) = [prefix] pt(self) over the abstract group; wrappers k*P / P*k are delegation obligations; double/+= meet the group law (C04 obligations)'),
